@@ -38,6 +38,13 @@ def gen(ctx):
         p = rng.choice([0.2, 0.35, 0.5])
         g = [[int(rng.random() < p) for _ in range(C)] for _ in range(R)]
         yield dict(kind="life", hist=[g], T=rng.randint(1, 5), memo=rng.choice(["False", "True", "recursive_lit"]))
+    for _ in range(ctx.n(60, 600)):
+        # a warm-up call with the SAME rule function under other settings, then Life proper (one process)
+        R, C = rng.randint(3, 8), rng.randint(3, 8)
+        g = [[int(rng.random() < 0.4) for _ in range(C)] for _ in range(R)]
+        yield dict(kind="life", hist=[g], T=rng.randint(2, 4), memo=rng.choice(["True", "recursive_lit", "recursive_lit"]),
+                   warm=dict(nb=rng.choice(["von Neumann", "von Neumann", "Moore"]), memo=rng.choice(["True", "recursive_lit", "recursive_lit"]),
+                             T=rng.randint(2, 3), same_grid=int(rng.random() < 0.7)))
     sizes = [(5, 5), (5, 7), (6, 6), (7, 5), (8, 8), (10, 9)] if ctx.tier == "quick" else \
         [(R, C) for R in range(5, 11) for C in range(5, 11)]
     for (R, C) in sizes:
@@ -71,6 +78,11 @@ def line(c):
 def run(c):
     import cellpylib as cpl
     ca = np.array(_hist(c), dtype=np.int32)
+    w = c.get("warm")
+    if w:
+        wca = ca[-1:].copy() if w["same_grid"] else np.roll(ca[-1:], 1, axis=2).copy()
+        cpl.evolve2d(wca, timesteps=w["T"], apply_rule=cpl.game_of_life_rule, r=1, neighbourhood=w["nb"],
+                     memoize=ev1.memo_value(w["memo"]))
     return cpl.evolve2d(ca, timesteps=_T(c), apply_rule=cpl.game_of_life_rule, r=1, neighbourhood="Moore",
                         memoize=ev1.memo_value(c["memo"]))
 
